@@ -172,6 +172,28 @@ def cases(draw):
     root_name = sp0["n"]
     sp, labels = draw(treegen.mutated(st.just(sp0), 0, 6, kinds=PLANT))
     sp["n"] = root_name
+    if draw(st.integers(0, 4)) == 0:
+        # foreign content under additionalMetadata/metadata where the rules allow additionalMetadata (eml): opaque
+        # below metadata, but the metadata node itself is an ordinary node (at most one child, no text, no attributes)
+        hosts = [s for _, s in treegen.spec_nodes(sp) if s["n"] == "eml"]
+        if not hosts and draw(st.booleans()):
+            sp = {"n": "eml", "a": {"packageId": "p.1.1", "system": "s"}, "k": [sp] if sp["n"] == "dataset" else
+                  [treegen.tables().min_spec("dataset")]}
+            hosts = [sp]
+        if hosts:
+            inner = draw(st.lists(treegen.arb_spec(4), max_size=3))
+            md = {"n": "metadata"}
+            if inner:
+                md["k"] = inner
+            f = draw(st.integers(0, 7))
+            if f == 0:
+                md["a"] = {"id": "m1"}
+            elif f == 1:
+                md["c"] = "text"
+            am = {"n": "additionalMetadata", "k": [md]}
+            if draw(st.booleans()):
+                am["k"].insert(0, {"n": "describes", "c": "x"})
+            hosts[0].setdefault("k", []).append(am)
     if draw(st.integers(0, 3)) == 0:
         # the class the exception-steered implementation mishandles: offender under a parent with a content/attr error
         hosts = [s for _, s in treegen.spec_nodes(sp) if s["n"] in R.node_mappings and s["n"] != "metadata"]
